@@ -39,7 +39,8 @@ PARTIAL = ('proved for all inputs (Properties/C05.v): under wf_chains and valid 
            '(ids unique, edge-id lists duplicate free, node<->edge cross references, terminals present) and den g = sum of the identity-padded chains '
            '(duplicates, accumulation, cancellation, single chain with any coefficient); the meaning clause holds for every returned graph and every cover oracle; '
            'from_opgraph: layers, qD = node charges in id order, nid_map, block sparsity, opamp = word sum of den; chains -> MPO end to end. '
-           'NOT proved, validated on every case (evaluated in Coq): the level/terminal/sorted part of is_consistent, glength g = L, charges along paths. '
+           'is_consistent never answers False on any returned graph (levels, terminals, sorted opics, cross references; any fuel, any cover); '
+           'NOT proved, validated on every case (evaluated in Coq): glength g = L, charges along paths. '
            'The hypotheses wf_chains and covers_ok are themselves evaluated on every successful case with the recorded covers.')
 ASSUMPTIONS = ['the tensor accumulation loop of MPO.from_opgraph is modelled by its meaning as an index comprehension (validated exactly on every case)']
 
